@@ -46,7 +46,7 @@ REAL_VS_STUB = {"real": ["sdeint, BaseSDESolver.integrate (adaptive loop), adapt
 PROBES = ("trials", "accepted", "rejected", "rejection_at_dt_min", "ge5_consecutive_rejections", "step_at_dt_min",
           "accepted_with_err_gt_1_at_dt_min", "final_step_clipped", "final_step_le_4ulp", "value_model_trials",
           "err_recomputed", "outputs_checked", "conf_real", "conf_adv", "real_bm", "stub_bm", "f32", "stiff",
-          "err_hugging_1", "scheme_diverged")
+          "err_hugging_1", "scheme_diverged", "via_sdeint_adjoint")
 STATE_MEASURE = "distinct accept/reject words (one letter per trial) together with (solver, noise type)"
 
 
@@ -110,7 +110,9 @@ def gen_case(seed, tier, idx):
     return {"solver": solver, "sde": spec, "dtype": dtype, "ts": [fx(t) for t in ts], "dt": fx(dt), "dt_min": fx(dt_min),
             "rtol": fx(rtol_), "atol": fx(atol_),
             "conf": conf, "script": [fx(x) for x in script], "bm": "real" if rs.random() < 0.25 else "stub",
-            "bm_seed": rs.randrange(1 << 30), "cache_size": rs.choice([45, 2]), "tail_ulps": tail}
+            "bm_seed": rs.randrange(1 << 30), "cache_size": rs.choice([45, 2]), "tail_ulps": tail,
+            # 20%: through sdeint_adjoint (forward pass), with other tolerances for the backward solve
+            "entry": "sdeint_adjoint" if rs.random() < 0.2 else "sdeint"}
 
 
 # ----------------------------------------------------------------------------------------
@@ -197,6 +199,7 @@ def run_case(case, keep_log=False):
         kw["options"] = dict(solver["options"])
     conf = case["conf"]
     probes["conf_" + conf] = 1
+    probes["via_sdeint_adjoint"] = int(case.get("entry") == "sdeint_adjoint")
     probes["f32"] = int(f32)
     probes["stiff"] = int(spec.get("stiff", 1.0) > 1)
     fired = {"miss": 0, "drop": 0, "blackout": 0}
@@ -264,8 +267,13 @@ def run_case(case, keep_log=False):
             with Recorder(conf, script) as R, seams.CallMonitor(budget) as mon:
                 try:
                     with torch.no_grad():
-                        ys = torchsde.sdeint(sde, y0, ts_t, bm=rec, method=solver["method"], dt=dt, adaptive=True,
-                                             rtol=rtol, atol=atol, dt_min=dt_min, **kw)
+                        if case.get("entry") == "sdeint_adjoint":
+                            ys = torchsde.sdeint_adjoint(sde, y0, ts_t, bm=rec, method=solver["method"], dt=dt, adaptive=True,
+                                                         rtol=rtol, atol=atol, dt_min=dt_min, adjoint_rtol=rtol * 37 + 1e-3,
+                                                         adjoint_atol=atol * 37 + 1e-3, **kw)
+                        else:
+                            ys = torchsde.sdeint(sde, y0, ts_t, bm=rec, method=solver["method"], dt=dt, adaptive=True,
+                                                 rtol=rtol, atol=atol, dt_min=dt_min, **kw)
                 except Online as o:
                     raise o.v
                 except SimBudgetExceeded as e:
@@ -525,8 +533,8 @@ def sample_of(case, stats):
 
 
 def simplify(case):
-    for key, val in (("bm", "stub"), ("dtype", "float64"), ("tail_ulps", 0), ("cache_size", 45)):
-        if case[key] != val:
+    for key, val in (("bm", "stub"), ("dtype", "float64"), ("tail_ulps", 0), ("cache_size", 45), ("entry", "sdeint")):
+        if case.get(key) != val:
             c = copy.deepcopy(case)
             c[key] = val
             yield c
